@@ -22,7 +22,7 @@ MANIFEST_INFO = {
     "engine": "E",
     "design_ref": "DESIGN.md section 5, C19",
     "technique": "bounded-exhaustive enumeration of all suite trees up to a node bound (6 suite kinds incl. testtools' FixtureSuite x 4 leaf labels, duplicates included) x all 16 id subsets, checked against a list-of-leaves reference model; testtools.run --list/--load-list driven in-process on a synthetic module for every small tree",
-    "level_text": "Every ordered tree with at most 5 (quick) / 6 (thorough) nodes over plain TestSuite, a custom subclass, one with sort_tests, one with an in-place filter_by_ids, one whose filter_by_ids returns a new suite and testtools' own FixtureSuite (each possibly empty), with PlaceHolder and stdlib-TestCase leaves (given their ids afterwards: they compare equal to one another) over ids {a,b,c} (duplicates occur), is built afresh and passed to iterate_tests, to filter_by_ids for every subset of {a,b,c,z} (order, identity and the chain of enclosing suite objects of every surviving leaf are compared; the caller then adds a test of its own to every empty suite the call created, which no later call may see), and to sorted_tests (ValueError iff duplicate ids, otherwise the documented order). For every tree of at most 4 (quick) / 5 (thorough) nodes the two compositions sort-then-filter (what testtools.run discover --load-list does) and filter-then-sort are checked for every subset. For every tree of at most 4 nodes, testtools.run --list and --load-list (every subset, via a scratch file) are run in-process.",
+    "level_text": "Every ordered tree with at most 5 (quick) / 6 (thorough) nodes over plain TestSuite, a custom subclass, one with sort_tests, one with an in-place filter_by_ids, one whose filter_by_ids returns a new suite and testtools' own FixtureSuite (each possibly empty), with PlaceHolder and stdlib-TestCase leaves (given their ids afterwards: they compare equal to one another) over three ids (duplicates occur; one id has unittest's import-failure marker in the middle), is built afresh and passed to iterate_tests, to filter_by_ids for every subset of {a,b,c,z} (order, identity and the chain of enclosing suite objects of every surviving leaf are compared; the caller then adds a test of its own to every empty suite the call created, which no later call may see), and to sorted_tests (ValueError iff duplicate ids, otherwise the documented order). For every tree of at most 4 (quick) / 5 (thorough) nodes the two compositions sort-then-filter (what testtools.run discover --load-list does) and filter-then-sort are checked for every subset. For every tree of at most 4 nodes, testtools.run --list and --load-list (every subset, via a scratch file) are run in-process, --load-list also with the program given a module whose load_tests hook returns the tree itself.",
     "level_note": "The reference model is a recursive list of leaves; custom filter_by_ids is a correct in-place implementation; the position of empty custom suites in sorted_tests output is not constrained (they hold no tests).",
 }
 
